@@ -220,8 +220,14 @@ def _factors(p):
     """irreducible factors of a non-constant Poly (via sympy.factor_list), normalised"""
     import sympy
 
+    import sympy.core.random
+
     names = p.vars()
     syms = {n: sympy.Symbol(n) for n in names}
+    # sympy's multivariate factorisation (Wang) draws random evaluation points; unseeded, the same polynomial took from
+    # 0.01 s to more than an hour (about one run of a divmod instance in twenty never came back).  A fixed seed per call makes
+    # the work a function of the polynomial only.
+    sympy.core.random.seed(20240917)
     _, fl = sympy.factor_list(p.to_sympy(syms), *[syms[n] for n in names])
     out = []
     for f, _mult in fl:
